@@ -73,15 +73,6 @@ def refused_calls_leave_no_trace(run, cfgs, nprng):
                         pass
                 if not used.started:
                     run.violation({"kind": kind + "_refused_call_ended_the_utterance", "cfg": cfg, "fed": k1})
-                # a chunk of another float type than the utterance's: where the computer refuses it (the short-integration
-                # one does, by documented design) the refusal leaves no trace either; where it is accepted there is
-                # nothing to compare
-                if other_dt != np.float64:
-                    try:
-                        used.compute_chunk(offered[:3])
-                        continue
-                    except ValueError:
-                        pass
                 outs_u.append(used.compute_chunk(x[k1:k1 + S + 1]))
                 outs_c.append(clean.compute_chunk(x[k1:k1 + S + 1]))
                 outs_u.append(used.finalize())
@@ -90,6 +81,23 @@ def refused_calls_leave_no_trace(run, cfgs, nprng):
                 if any(a.dtype != b.dtype or a.shape != b.shape or a.tobytes() != b.tobytes() for a, b in zip(outs_u, outs_c)):
                     run.violation({"kind": kind + "_refused_call_disturbed_the_utterance", "cfg": cfg, "fed": k1, "offered_dtype": str(np.dtype(other_dt)),
                                    "dtypes": [str(a.dtype) for a in outs_u], "undisturbed_dtypes": [str(b.dtype) for b in outs_c]})
+                # a chunk of another float type than the utterance's: where the computer refuses it (the short-integration
+                # one does, by documented design) the refusal leaves no trace either; where it is accepted there is
+                # nothing to compare
+                if other_dt != np.float64:
+                    used, clean = mk(), mk()
+                    outs_u, outs_c = [used.compute_chunk(x[:k1])], [clean.compute_chunk(x[:k1])]
+                    try:
+                        used.compute_chunk(offered[:3])
+                        refused = False
+                    except ValueError:
+                        refused = True
+                    if refused:
+                        outs_u += [used.compute_chunk(x[k1:k1 + S + 1]), used.finalize()]
+                        outs_c += [clean.compute_chunk(x[k1:k1 + S + 1]), clean.finalize()]
+                        if any(a.dtype != b.dtype or a.shape != b.shape or a.tobytes() != b.tobytes() for a, b in zip(outs_u, outs_c)):
+                            run.violation({"kind": kind + "_refused_call_disturbed_the_utterance", "cfg": cfg, "fed": k1,
+                                           "offered_dtype": str(np.dtype(other_dt)), "what": "a refused chunk of another float type"})
                 # ... and directly: refused, then finalize with nothing in between
                 used, clean = mk(), mk()
                 used.compute_chunk(x[:k1 + S])
